@@ -1300,6 +1300,22 @@ def c11_mpe(inp):
                 msg = _c11_cmp("SSI_mpe('find_min')", got, exp, ctx)
                 if msg:
                     return {"reproduced": True, "detail": msg}
+    if which in ("all", "ssi", "ssi_findmin"):
+        # "exactly one stable pole within tolerance": two stable poles of one order with the bit-identical frequency (different damping and
+        # shape) are two poles - such an order does not qualify, the next one with a single pole does
+        for n_dup in (2, 3):
+            Fn = np.full((4, 4), np.nan); Xi = np.full((4, 4), np.nan); Phi = np.full((4, 4, 2), np.nan, dtype=complex); Lab = np.zeros((4, 4), int)
+            for r in range(n_dup):
+                Fn[r, 1], Xi[r, 1], Phi[r, 1], Lab[r, 1] = 5.0, 0.01 * (r + 1), [1.0, 0.5 - r], 1
+            Fn[3, 1], Xi[3, 1], Phi[3, 1], Lab[3, 1] = 9.0, 0.02, [1.0, 0.3], 1
+            Fn[0, 2], Xi[0, 2], Phi[0, 2], Lab[0, 2] = 5.0, 0.02, [1.0, 0.4], 1
+            Fn[1, 2], Xi[1, 2], Phi[1, 2], Lab[1, 2] = 9.0, 0.03, [1.0, 0.2], 1
+            for freq_ref in ([5.0], [5.0, 9.0]):
+                got = ssi.SSI_mpe(list(freq_ref), Fn, Xi, Phi, "find_min", Lab=Lab, rtol=0.01)
+                if got[3] != 2:
+                    return {"reproduced": True, "failures": [{"claim": "find_min: two stable poles with the same frequency are two poles", "detail": f"order_out={got[3]}"}],
+                            "detail": f"SSI_mpe('find_min'): reported order {got[3]} although order 1 holds {n_dup} stable poles at exactly 5.0 Hz inside the band of the "
+                                      f"request 5.0 Hz (rtol 0.01); the lowest order with exactly one stable pole per request is 2 (freq_ref={freq_ref})"}
     return {"reproduced": False, "detail": f"extraction agrees with the property on {ntr} crafted tables ({which})"}
 
 
